@@ -7,6 +7,7 @@ package probe
 import (
 	"context"
 	"sync"
+	"sync/atomic"
 	"time"
 )
 
@@ -140,6 +141,35 @@ func SleepyTicker(ctx context.Context, period time.Duration) int {
 			n++
 		case <-ctx.Done():
 			return n
+		}
+	}
+}
+
+// Drops is a counter of armed drops consumed with atomics.
+type Drops struct {
+	n     atomic.Int32
+	Buggy bool // check-then-act with two separate atomic operations
+}
+
+func (d *Drops) Arm(k int32) { d.n.Store(k) }
+
+func (d *Drops) Take() bool {
+	if d.Buggy {
+		if d.n.Load() > 0 {
+			d.n.Add(-1)
+
+			return true
+		}
+
+		return false
+	}
+	for {
+		v := d.n.Load()
+		if v <= 0 {
+			return false
+		}
+		if d.n.CompareAndSwap(v, v-1) {
+			return true
 		}
 	}
 }
